@@ -522,3 +522,13 @@ func resolveGlobalRenames(p *load.Program, frozen []frozenGlobal) []string {
 	}
 	return notes
 }
+
+// canonGlobalName is the frozen name of a package-level variable that was renamed, its own name otherwise.
+func canonGlobalName(g *ssa.Global) string {
+	if obj := g.Object(); obj != nil {
+		if n, ok := globalCanon[obj]; ok {
+			return n
+		}
+	}
+	return g.Name()
+}
